@@ -135,6 +135,7 @@ class Proc:
         self.test, self.shard, self.popen, self.logpath = test, shard, popen, logpath
         self.cases, self.deadline = cases, deadline
         self.timed_out = False
+        self.skipped = False
 
 
 def limit_as(gb):
@@ -206,6 +207,7 @@ def run_tests(pid, cfg, tier, seed, binaries, outdir, replay=None, scale=1.0):
                               preexec_fn=pre)
         return Proc(test, sh, po, logpath, cases, time.time() + timeout)
 
+    stop_early = False
     while pending or running:
         while pending and len(running) < maxpar:
             running.append(launch(*pending.pop(0)))
@@ -227,8 +229,34 @@ def run_tests(pid, cfg, tier, seed, binaries, outdir, replay=None, scale=1.0):
                     still.append(pr)
             else:
                 results.append(pr)
+                # a shard that has found a violation ends the search: the remaining shards
+                # would only repeat it (or hang on a tree that is broken enough)
+                if rc != 0 and not stop_early and shard_found_violation(pr, outdir):
+                    stop_early = True
+        if stop_early:
+            pending = []
+            for pr in still:
+                pr.popen.kill()
+                pr.popen.wait()
+                pr.skipped = True
+                results.append(pr)
+            still = []
         running = still
     return results
+
+
+def shard_found_violation(pr, outdir):
+    try:
+        with open(pr.logpath, errors="replace") as f:
+            if "WARNING: DATA RACE" in f.read():
+                return True
+    except OSError:
+        pass
+    try:
+        with open(os.path.join(outdir, "%s.%d.stats.json" % (pr.test["name"], pr.shard))) as f:
+            return bool(json.load(f).get("violations"))
+    except (OSError, ValueError):
+        return False
 
 
 def hash_name(s):
@@ -372,6 +400,8 @@ def main(argv):
     # --- classify
     violations, infra, notes = [], [], []
     for pr in results:
+        if pr.skipped:
+            continue
         with open(pr.logpath, errors="replace") as f:
             out = f.read()
         name = pr.test["name"]
